@@ -12,10 +12,10 @@ RULE = ("cases = query texts that the reference parser derives from the RFC 9535
         "form, shorthand/bracket notation, number spellings, non-ASCII and non-BMP shorthand names), (ii) one/two-"
         "edit mutants of those that are still VALID; non-trivial = the text uses at least one optional lexical form "
         "(blank, escape, double quotes, fraction/exponent, non-ASCII shorthand, parentheses) or is a still-valid "
-        "mutant; distinct by text. DISPUTED texts are never used.")
+        "mutant; distinct by text. DISPUTED texts are never used. The thorough tier adds four coverage-guided atheris campaigns (token dictionary, seeded and empty corpus) whose inputs are classified by the same reference inside the fuzz target.")
 ASSUMPTIONS = ["vlib/ref/abnf.py transcribes RFC 9535 Appendix A; vlib/ref/typecheck.py section 2.4.3",
                "DISPUTED inputs (see DESIGN.md section 3) are excluded"]
-TECHNIQUE = "Hypothesis grammar-based generation + mutation, membership oracle = independent RFC 9535 ABNF recogniser and type checker"
+TECHNIQUE = "Hypothesis grammar-based generation + mutation, plus atheris (libFuzzer) campaigns in the thorough tier; membership oracle = independent RFC 9535 ABNF recogniser and type checker"
 LEVEL_TEXT = ("Grammar-derived valid queries over every lexical alternative plus still-valid near-miss mutants; each "
               "must compile. The reference recogniser decides membership exactly (set-valued, memoised). Sampled.")
 LEVEL_NOTE = "Trusted: vlib/ref/abnf.py and typecheck.py (self-test + triangulation)."
@@ -26,10 +26,15 @@ examine = accept.examine_accept
 def plan(tier, seed):
     if tier == "quick":
         return [{"n": 800} for _ in range(16)]
-    return [{"n": 15000} for _ in range(16)]
+    import os
+    return [{"n": 15000} for _ in range(16)] + [
+        {"mode": "atheris", "runs": int(os.environ.get("VERIF_ATHERIS_RUNS", "600000")), "corpus": "seeded" if i % 2 == 0 else "empty", "idx": i}
+        for i in range(4)]
 
 
 def run_shard(spec, shard):
+    if spec.get("mode") == "atheris":
+        return accept.run_atheris_grammar(spec, shard, examine, "refused")
     # One long-lived environment per shard also receives every rejected mutant and some garbage, so that
     # "accepted" is checked after hundreds of failed compilations on the same environment, not only on a
     # pristine one.
